@@ -229,7 +229,12 @@ carquet_status_t carquet_reader_row_group_matches(
             break;
 
         case CARQUET_COMPARE_NE:
-            /* value != x: skip only if all values equal x */
+            /* value != x: skip only if all values equal x. For floating
+             * point columns min/max cannot vouch for that: NaN values are
+             * left out of the statistics, and a NaN row satisfies x != v. */
+            if (type == CARQUET_PHYSICAL_FLOAT || type == CARQUET_PHYSICAL_DOUBLE) {
+                break;
+            }
             if (cmp_min == 0 && cmp_max == 0) {
                 /* min == max == value, all values equal the search value */
                 *might_match = false;
